@@ -5451,6 +5451,7 @@ type dstate =
 | DPS of psef * n list * n
 | DWM of wavelet * bkind * n list * n
 | DBroad
+| DWrap
 | DBig of bitvec * bool
 | DSer of dstate * ty * val0 * n list * n
 
@@ -7575,7 +7576,10 @@ let init c kind args data =
         (match p0 with
          | XI p1 ->
            (match p1 with
-            | XI _ -> ((DNone, RPanic), SAny)
+            | XI p2 ->
+              (match p2 with
+               | XH -> ((DWrap, ROk), (SExact ROk))
+               | _ -> ((DNone, RPanic), SAny))
             | XO p2 ->
               (match p2 with
                | XH ->
@@ -7649,92 +7653,98 @@ let step c st code args data =
   then init c
          (N.sub code (Npos (XO (XO (XO (XI (XO (XI (XI (XI (XI XH)))))))))))
          args data
-  else if N.leb (Npos (XI (XO (XI (XI (XI (XO XH))))))) code
-       then let cached =
-              match st with
-              | DSer (_, _, _, _, _) -> Some st
-              | _ ->
-                (match st_val st with
-                 | Some p ->
-                   let (t, v) = p in
-                   Some (DSer (st, t, v, (ser t v), (size0 t v)))
-                 | None -> None)
-            in
-            (match cached with
-             | Some d ->
-               (match d with
-                | DSer (inner, t, v, bytes, sz) ->
-                  (match ser_step inner t v bytes sz code args with
-                   | Some p ->
-                     let (r, sp) = p in
-                     (((DSer (inner, t, v, bytes, sz)), r), sp)
-                   | None -> ((st, RPanic), SAny))
-                | _ -> ((st, RPanic), SAny))
-             | None -> ((st, RPanic), SAny))
-       else let st0 =
-              match st with
-              | DSer (inner, _, _, _, _) -> inner
-              | _ -> st
-            in
-            (match st0 with
-             | DBitVec (m, s, ui, ucur, itpos) ->
-               step_bitvec c m s ui ucur itpos code args data
-             | DR9 (m, s) ->
-               let (r, sp) = step_r9 c m s code args in ((st0, r), sp)
-             | DDA (m, s) ->
-               let (r, sp) = step_da c m s code args in ((st0, r), sp)
-             | DSA (m, s) ->
-               let (r, sp) = step_sa c m s code args in ((st0, r), sp)
-             | DEFB (m, u, mm, acc) -> step_efb c m u mm acc code args data
-             | DEF (m, u, xs, it, itleft) ->
-               step_ef c m u xs it itleft code args
-             | DCV (m, xs, itpos) -> step_cv c m xs itpos code args data
-             | DDO (m, xs, ml, itpos) -> step_do c m xs ml itpos code args
-             | DDB (m, xs, itpos) -> step_db c m xs itpos code args
-             | DPS (m, xs, itpos) -> step_ps c m xs itpos code args
-             | DWM (m, k, xs, itpos) -> step_wm c m k xs itpos code args data
-             | DBroad ->
-               let (r, sp) = step_broad c code args in ((st0, r), sp)
-             | DBig (m, bit) ->
-               let a0 = arg args O in
-               (match code with
-                | N0 -> ((st0, RPanic), SAny)
-                | Npos p ->
-                  (match p with
-                   | XI p0 ->
-                     (match p0 with
-                      | XI p1 ->
-                        (match p1 with
-                         | XO p2 ->
-                           (match p2 with
-                            | XH ->
-                              ((st0, (rv_optbool (get_bit c m a0))), (SExact
-                                (if N.ltb a0 m.bv_len
-                                 then RBool bit
-                                 else RNone)))
+  else (match st with
+        | DWrap -> ((st, (RBool true)), (SExact (RBool true)))
+        | _ ->
+          if N.leb (Npos (XI (XO (XI (XI (XI (XO XH))))))) code
+          then let cached =
+                 match st with
+                 | DSer (_, _, _, _, _) -> Some st
+                 | _ ->
+                   (match st_val st with
+                    | Some p ->
+                      let (t, v) = p in
+                      Some (DSer (st, t, v, (ser t v), (size0 t v)))
+                    | None -> None)
+               in
+               (match cached with
+                | Some d ->
+                  (match d with
+                   | DSer (inner, t, v, bytes, sz) ->
+                     (match ser_step inner t v bytes sz code args with
+                      | Some p ->
+                        let (r, sp) = p in
+                        (((DSer (inner, t, v, bytes, sz)), r), sp)
+                      | None -> ((st, RPanic), SAny))
+                   | _ -> ((st, RPanic), SAny))
+                | None -> ((st, RPanic), SAny))
+          else let st0 =
+                 match st with
+                 | DSer (inner, _, _, _, _) -> inner
+                 | _ -> st
+               in
+               (match st0 with
+                | DBitVec (m, s, ui, ucur, itpos) ->
+                  step_bitvec c m s ui ucur itpos code args data
+                | DR9 (m, s) ->
+                  let (r, sp) = step_r9 c m s code args in ((st0, r), sp)
+                | DDA (m, s) ->
+                  let (r, sp) = step_da c m s code args in ((st0, r), sp)
+                | DSA (m, s) ->
+                  let (r, sp) = step_sa c m s code args in ((st0, r), sp)
+                | DEFB (m, u, mm, acc) -> step_efb c m u mm acc code args data
+                | DEF (m, u, xs, it, itleft) ->
+                  step_ef c m u xs it itleft code args
+                | DCV (m, xs, itpos) -> step_cv c m xs itpos code args data
+                | DDO (m, xs, ml, itpos) -> step_do c m xs ml itpos code args
+                | DDB (m, xs, itpos) -> step_db c m xs itpos code args
+                | DPS (m, xs, itpos) -> step_ps c m xs itpos code args
+                | DWM (m, k, xs, itpos) ->
+                  step_wm c m k xs itpos code args data
+                | DBroad ->
+                  let (r, sp) = step_broad c code args in ((st0, r), sp)
+                | DWrap -> ((st0, (RBool true)), (SExact (RBool true)))
+                | DBig (m, bit) ->
+                  let a0 = arg args O in
+                  (match code with
+                   | N0 -> ((st0, RPanic), SAny)
+                   | Npos p ->
+                     (match p with
+                      | XI p0 ->
+                        (match p0 with
+                         | XI p1 ->
+                           (match p1 with
+                            | XO p2 ->
+                              (match p2 with
+                               | XH ->
+                                 ((st0, (rv_optbool (get_bit c m a0))),
+                                   (SExact
+                                   (if N.ltb a0 m.bv_len
+                                    then RBool bit
+                                    else RNone)))
+                               | _ -> ((st0, RPanic), SAny))
                             | _ -> ((st0, RPanic), SAny))
                          | _ -> ((st0, RPanic), SAny))
-                      | _ -> ((st0, RPanic), SAny))
-                   | XO p0 ->
-                     (match p0 with
-                      | XI p1 ->
-                        (match p1 with
-                         | XI p2 ->
-                           (match p2 with
-                            | XH ->
-                              ((st0,
-                                (match bind (r9_new c m) (fun x ->
-                                         r9_rank1 c x a0) with
-                                 | Ok a ->
-                                   (match a with
-                                    | Some r -> RNum r
-                                    | None -> RNone)
-                                 | Panic -> RPanic)), (SExact
-                                (if N.leb a0 m.bv_len
-                                 then RNum (if bit then a0 else N0)
-                                 else RNone)))
+                      | XO p0 ->
+                        (match p0 with
+                         | XI p1 ->
+                           (match p1 with
+                            | XI p2 ->
+                              (match p2 with
+                               | XH ->
+                                 ((st0,
+                                   (match bind (r9_new c m) (fun x ->
+                                            r9_rank1 c x a0) with
+                                    | Ok a ->
+                                      (match a with
+                                       | Some r -> RNum r
+                                       | None -> RNone)
+                                    | Panic -> RPanic)), (SExact
+                                   (if N.leb a0 m.bv_len
+                                    then RNum (if bit then a0 else N0)
+                                    else RNone)))
+                               | _ -> ((st0, RPanic), SAny))
                             | _ -> ((st0, RPanic), SAny))
                          | _ -> ((st0, RPanic), SAny))
-                      | _ -> ((st0, RPanic), SAny))
-                   | XH -> ((st0, RPanic), SAny)))
-             | _ -> ((st0, RPanic), SAny))
+                      | XH -> ((st0, RPanic), SAny)))
+                | _ -> ((st0, RPanic), SAny)))
